@@ -184,6 +184,7 @@ impl Ctx {
                 break;
             }
             self.begin_scenario(idx);
+            let t_scen = self.elapsed_ms();
             let mut rng = Rng::derive(self.seed, prop_salt(&self.prop), idx, 0x5ce7);
             let r = {
                 let this = &mut *self;
@@ -205,6 +206,12 @@ impl Ctx {
                 }
                 crate::viol!("panic escaped from the library during scenario {}: {}", idx, msg);
                 self.leak_ok = true;
+            }
+            // a scenario that takes a large part of the shard's budget is worth knowing about (workload sizing)
+            let took = self.elapsed_ms().saturating_sub(t_scen);
+            if took > 4000 && !crate::util::slow_lane() {
+                eprintln!("HBV-SLOW scenario {} took {} ms: {}", idx, took, self.scen_desc.to_string());
+                self.max("slowest_scenario_ms", took);
             }
             self.end_scenario();
             k += 1;
